@@ -106,7 +106,24 @@ def probes_for(re_v, flags_v):
     return out
 
 
-def re_case(cid, subj_v, re_v, flags_v, r, nstr=2, laws=True):
+# Appended to the Prelude of JqSem for the second reading of builtin.jq (ValidateRegex!XVerdict): the native _match
+# answers from the table the specification computed (fed as the input stream), _captures is funcCaptures in jq.
+XDEFS = '''
+def _match($re; $flags; $test): input[[$re, $flags, $test] | tojson] | if .e then error(null) else .v end;
+def _captures: reduce .[] as $c ({}; if ($c | type) == "object" and ($c.name | type) == "string" then . + {($c.name): $c.string} else . end);
+'''
+
+
+def make_prelude(work, vh):
+    x = work.path("c14_defs.jq")
+    with open(x, "w") as f:
+        f.write(XDEFS)
+    p = work.path("prelude.ndjson")
+    vc.sh([vh, "prelude", "-out", p, os.path.join(vc.REPO, "builtin.jq"), os.path.join(vc.SPEC, "prelude_spec.jq"), x])
+    return p
+
+
+def re_case(cid, subj_v, re_v, flags_v, r, nstr=2, laws=True, xcheck=False):
     sx = r.sample(range(len(STRS)), nstr)
     ks = [{"f": f} for f in RE_PROGS if laws or not f.startswith("law_")]
     if re_v["t"] != "str":
@@ -117,9 +134,13 @@ def re_case(cid, subj_v, re_v, flags_v, r, nstr=2, laws=True):
         ks += [{"f": f, "si": j + 1, "sx": x} for f in SUB_PROGS]
         if flags_v["t"] == "null":
             ks += [{"f": f, "si": j + 1, "sx": x} for f in SUB_PROGS1]
+    asts = [STRS[x] for x in sx]
+    if xcheck:      # the specification also evaluates these programs from the text of builtin.jq
+        for k in ks:
+            asts.append(src_of(k))
+            k["pa"] = len(asts)
     return {"id": cid, "meta": {"fam": "re"}, "input": subj_v, "vars": [["$re", re_v], ["$flags", flags_v]],
-            "progs": [{"k": k, "src": src_of(k)} for k in ks], "probes": probes_for(re_v, flags_v),
-            "asts": [STRS[x] for x in sx]}
+            "progs": [{"k": k, "src": src_of(k)} for k in ks], "probes": probes_for(re_v, flags_v), "asts": asts}
 
 
 def pos_case(cid, subj, r, small):
@@ -193,22 +214,24 @@ def gen_re_cases(r, subjects, re0, re1, flagsets, quick):
     """-> list of (subject value, regex value, flags value) triples"""
     out = []
     fl_valid = [None] + [f for f in flagsets if set(f) <= set("gim")]
-    fl_all = [None, None] + flagsets
+    fl_all = [None, None] + flagsets + ["é", "g\n"]
     small = [s for s in subjects if len(s) <= 3]
 
     def F(f):
         return V(f)
 
-    # 1. every atom of the grammar, on several subjects
+    # 1. every atom of the grammar x EVERY subject up to length 2 (quick) / 3 (thorough)
     for re in re0:
-        for _ in range(3 if quick else 40):
-            out.append((V(r.choice(small if quick else subjects)), V(txt(re)), F(r.choice(fl_valid))))
+        for s in subjects:
+            if len(s) <= (2 if quick else 3):
+                for f in (["g"] if quick else [None, "g"]):
+                    out.append((V(s), V(txt(re)), F(f)))
     # 2. depth-1 regexes x exhaustive short subjects (sampled product)
-    for _ in range(1200 if quick else 30000):
+    for _ in range(1500 if quick else 60000):
         out.append((V(r.choice(subjects)), V(txt(r.choice(re1))), F(r.choice(fl_all if r.random() < 0.15 else fl_valid))))
     # 3. deeper regexes x longer random subjects
     pool = re0 + re1
-    for _ in range(500 if quick else 12000):
+    for _ in range(700 if quick else 20000):
         out.append((V(long_subject(r)), V(compose(r, pool, r.choice([0, 1, 1, 2]))), F(r.choice(fl_valid))))
     # 4. argument types: not a string subject / regex / flags
     odd = [None, 1, ["a"], {"a": 1}, True]
@@ -296,6 +319,10 @@ def check_cases(rep, work, vh, prelude, cases, tag, timeout):
         for j, (run, rv) in enumerate(zip(rec["runs"], v["runs"])):
             rep.count("evaluations")
             bump(rv["v"])
+            if "x" in rv:
+                bump(rv["x"])
+                if rv["x"] == "xmismatch":
+                    rep.notes.append("SPEC-DRIFT: Regex.tla and JqSem's reading of builtin.jq differ on " + show_case(case, run["k"]))
             if rv["v"] == "agree":
                 decided = True
                 rep.count("traces_validated_against_impl")
@@ -367,7 +394,7 @@ def run(tier, seed, replay):
     vh, _ = vc.build()
     work = vc.Work(PROP)
     try:
-        prelude = evalfam.make_prelude(work, vh)
+        prelude = make_prelude(work, vh)
         if replay:
             rec = json.load(open(replay))
             c = check_cases(rep, work, vh, prelude, [rec["case"]], "replay", 600)
@@ -390,9 +417,12 @@ def run(tier, seed, replay):
         for _ in range(150 if quick else 3000):
             cases.append(pos_case(len(cases), long_subject(r, 5, 40), r, small=False))
         npos = len(cases)
-        for s, re, f in gen_re_cases(r, subjects, re0, re1, flagsets, quick):
-            cases.append(re_case(len(cases), s, re, f, r))
+        triples = gen_re_cases(r, subjects, re0, re1, flagsets, quick)
+        xs = set(r.sample(range(len(triples)), 30 if quick else 500))      # cases that also get the second reading of builtin.jq
+        for i, (s, re, f) in enumerate(triples):
+            cases.append(re_case(len(cases), s, re, f, r, xcheck=i in xs))
         rep.cov["cases"] = {"positions": npos, "regex": len(cases) - npos}
+        r.shuffle(cases)            # spread the expensive (long subject) cases over the TLC shards
         rep.cov["exhaustive"] = True
         counters = {}
         step = 4000
@@ -401,6 +431,7 @@ def run(tier, seed, replay):
             for k, n in c.items():
                 counters[k] = counters.get(k, 0) + n
         rep.cov["verdicts"] = counters
+        rep.cov["second_reading_of_builtin_jq"] = {k: counters.get(k, 0) for k in ("xagree", "xoom", "xmismatch")}
         tw = time.time()
         cfg, res = mc.result()
         vc.log("  model checking %s: %d distinct states in %.1fs (waited %.1fs for it)" % (cfg, res.distinct, res.wall, time.time() - tw))
@@ -411,9 +442,9 @@ def run(tier, seed, replay):
                            "of length <= %d over the 7-character alphabet. sampled (seeded): regex family = TLC-enumerated regexes x subjects x "
                            "flag arguments, deeper composed regexes x random subjects up to 40 code points. evaluations = program runs; "
                            "non-trivial = the specification prescribes an output or an error; distinct by (subject, arguments, program)" % (3 if quick else 4))
-        if counters.get("env_assumption_broken") or counters.get("spec_law_broken"):
+        if counters.get("env_assumption_broken") or counters.get("spec_law_broken") or counters.get("xmismatch"):
             rep.finish()
-            vc.log("TOOL: environment assumption or specification law broken (see notes in evidence)")
+            vc.log("TOOL: environment assumption broken, specification law broken or the two readings of builtin.jq differ (see notes in evidence)")
             return 1 if rep.violations else 2
         return rep.finish()
     finally:
